@@ -1,5 +1,1082 @@
-//! C27 — stub (being built).
+//! C27 — each subscription response holds exactly its own event's data and errors.
+//!
+//! Workload: subscription operations with 1–3 root fields (async-graphql merges
+//! their streams with `select_all`) over the static schema S1 and over a dynamic
+//! schema built from the same hand model. Every event waits for a vsched gate
+//! "ev:<response key>:<k>" and every resolver below an event object waits for
+//! "r:<path>", so event arrival and event resolution of different root fields
+//! interleave in every way the library allows. Faults hit ONE node only
+//! (`World::node_faults`, keyed by (response path, node id)); node ids differ per
+//! (response key, event number) and an error message names its node, so the cause
+//! of every error is attributable to one (root, k) event.
+//!
+//! Monitor (offline, over the recorded responses + the event log): see `check`.
+
+use std::collections::{BTreeMap, BTreeSet};
+use std::sync::Arc;
+
+use async_graphql::{Request, Response};
+use futures_util::StreamExt;
+use serde_json::{Value as J, json};
+use vh_core::vsched::{Armed, Chooser, Dfs, FifoChooser, LifoChooser, Outcome, RandomChooser, ReplayChooser, RunReport, Sched};
+use vh_core::{Rng, Run, catch, rng};
+use vh_model::doc::{Doc, FieldSel, Op, OpKind, Printed, Sel, print};
+use vh_model::exec::{RefResult, Seg, execute_event, may_be_missing, path_str};
+use vh_model::gen_doc::gen_doc;
+use vh_model::gen_ts::gen_type_system;
+use vh_model::world::{Fault, PlanVal, World};
+use vh_model::{TypeSystem, Val};
+use vh_schema::compare::{Observed, json_diff, observe};
+use vh_schema::dynb::{self, NodeRef};
+use vh_schema::s1::{self, event_id};
+use vh_schema::{Ek, Env, Event};
+
+use crate::common::*;
+
+// ---------------------------------------------------------------- cases
+
+#[derive(Clone, Debug)]
+struct Root {
+    key: String,
+    /// "ticks" | "events"
+    field: &'static str,
+    /// ticks(n:)
+    n: i64,
+    /// events(kind:)
+    kind: Option<&'static str>,
+}
+
+impl Root {
+    fn count(&self) -> usize {
+        if self.field == "ticks" { self.n.clamp(0, 4) as usize } else { 3 }
+    }
+    /// What the k-th event of this root field yields (mirrors `s1::Subscription`).
+    fn payload(&self, seed: u64, k: usize) -> PlanVal {
+        let id = event_id(seed, &self.key, k);
+        if self.field == "ticks" {
+            return PlanVal::Node { ty: "Tick".into(), id };
+        }
+        match (self.kind, id % 3) {
+            (_, 0) => PlanVal::Null,
+            (Some("CAT"), _) => PlanVal::Node { ty: "Cat".into(), id },
+            (Some(_), _) => PlanVal::Node { ty: "Dog".into(), id },
+            (None, 1) => PlanVal::Node { ty: "Dog".into(), id },
+            (None, _) => PlanVal::Node { ty: "Cat".into(), id },
+        }
+    }
+}
+
+#[derive(Clone, Debug, Default)]
+struct GenOpts {
+    /// few gates: meant to be enumerated completely
+    small: bool,
+    /// Err faults although events of several roots can be in flight together
+    cross_root_errors: bool,
+    /// Err faults at nullable positions at all
+    nullable_errors: bool,
+}
+
+#[derive(Clone)]
+struct SubCase {
+    flavour: &'static str,
+    roots: Vec<Root>,
+    doc: Doc,
+    printed: Printed,
+    world: World,
+    /// owner of each node fault: (path, node id) -> (root key, event number)
+    owners: BTreeMap<(String, u64), (String, usize)>,
+}
+
+fn fsel(doc: &mut Doc, alias: Option<&str>, name: &str, args: Vec<(&str, Val)>, sel: Vec<Sel>) -> Sel {
+    let id = doc.fresh_id();
+    Sel::Field(FieldSel {
+        id,
+        alias: alias.map(|s| s.to_string()),
+        name: name.into(),
+        args: args.into_iter().map(|(k, v)| (k.to_string(), v)).collect(),
+        dirs: vec![],
+        sel,
+    })
+}
+
+fn subset<'a>(r: &mut Rng, pool: &[&'a str], lo: usize, hi: usize) -> Vec<&'a str> {
+    let mut p: Vec<&str> = pool.to_vec();
+    r.shuffle(&mut p);
+    let n = (lo + r.below(hi - lo + 1)).min(p.len()).max(1);
+    p.truncate(n);
+    p
+}
+
+fn dog_sel(doc: &mut Doc, r: &mut Rng, max: usize) -> Vec<Sel> {
+    subset(r, &["name", "nick", "risky", "bark", "risky2"], 1, max).into_iter().map(|f| fsel(doc, None, f, vec![], vec![])).collect()
+}
+
+fn cat_sel(doc: &mut Doc, r: &mut Rng, max: usize) -> Vec<Sel> {
+    subset(r, &["name", "nick", "meow", "lives"], 1, max).into_iter().map(|f| fsel(doc, None, f, vec![], vec![])).collect()
+}
+
+fn tick_sel(doc: &mut Doc, r: &mut Rng, max: usize) -> Vec<Sel> {
+    let mut out = vec![];
+    for f in subset(r, &["n", "maybe", "bad", "nested"], 1, max) {
+        if f == "nested" {
+            let ds = dog_sel(doc, r, 2);
+            out.push(fsel(doc, None, "nested", vec![], ds));
+        } else {
+            out.push(fsel(doc, None, f, vec![], vec![]));
+        }
+    }
+    out
+}
+
+fn subscription_doc(roots: &[Root], r: &mut Rng, small: bool) -> Doc {
+    let mut doc = Doc::default();
+    let mut sel = vec![];
+    for root in roots {
+        let max = if small { 2 } else { 4 };
+        if root.field == "ticks" {
+            let s = tick_sel(&mut doc, r, max);
+            sel.push(fsel(&mut doc, Some(&root.key), "ticks", vec![("n", Val::Int(root.n))], s));
+        } else {
+            let mut s = vec![];
+            if r.chance(1, 3) {
+                s.push(fsel(&mut doc, None, "__typename", vec![], vec![]));
+            }
+            let ds = dog_sel(&mut doc, r, if small { 1 } else { 3 });
+            let id = doc.fresh_id();
+            s.push(Sel::Inline { id, cond: Some("Dog".into()), dirs: vec![], sel: ds });
+            let cs = cat_sel(&mut doc, r, if small { 1 } else { 3 });
+            let id = doc.fresh_id();
+            s.push(Sel::Inline { id, cond: Some("Cat".into()), dirs: vec![], sel: cs });
+            let args = match root.kind {
+                Some(k) => vec![("kind", Val::Enum(k.into()))],
+                None => vec![],
+            };
+            sel.push(fsel(&mut doc, Some(&root.key), "events", args, s));
+        }
+    }
+    doc.ops = vec![Op { kind: OpKind::Subscription, name: None, vars: vec![], dirs: vec![], sel }];
+    doc
+}
+
+fn sub_world(flavour: &str, seed: u64) -> World {
+    let mut w = world_for(flavour, seed);
+    w.event_ids_by_key = true;
+    w
+}
+
+/// Reference result of every event of every root field, each executed alone.
+fn expected_of(ts: &TypeSystem, case: &SubCase) -> BTreeMap<String, Vec<RefResult>> {
+    let op = &case.doc.ops[0];
+    let mut out = BTreeMap::new();
+    for root in &case.roots {
+        let mut v = vec![];
+        for k in 0..root.count() {
+            v.push(execute_event(ts, &case.doc, op, &json!({}), &case.world, &root.key, root.payload(case.world.seed, k)));
+        }
+        out.insert(root.key.clone(), v);
+    }
+    out
+}
+
+fn gen_case(ts: &Arc<TypeSystem>, r: &mut Rng, flavour: &'static str, o: &GenOpts) -> SubCase {
+    let nroots = if o.small {
+        2
+    } else if !o.cross_root_errors && r.chance(1, 3) {
+        1
+    } else {
+        match r.below(8) {
+            0 => 1,
+            1..=5 => 2,
+            _ => 3,
+        }
+    };
+    let mut roots = vec![];
+    for i in 0..nroots {
+        let key = ["a", "b", "c"][i].to_string();
+        let ticks = if o.small { r.chance(5, 6) } else { r.chance(2, 3) };
+        if ticks {
+            let n = if o.small { 1 + (i as i64 % 2) * r.below(2) as i64 } else { 1 + r.below(3) as i64 };
+            roots.push(Root { key, field: "ticks", n, kind: None });
+        } else {
+            roots.push(Root { key, field: "events", n: 0, kind: *r.pick(&[None, Some("DOG"), Some("CAT")]) });
+        }
+    }
+    let doc = subscription_doc(&roots, r, o.small);
+    let printed = print(&doc, r.chance(1, 4));
+    let world = sub_world(flavour, r.next_u64());
+    let mut case = SubCase { flavour, roots, doc, printed, world, owners: BTreeMap::new() };
+    // fault positions: the resolver calls of the fault-free events
+    let base = expected_of(ts, &case);
+    let mut cands: Vec<((String, u64), (String, usize), bool)> = vec![];
+    for (key, evs) in &base {
+        for (k, ev) in evs.iter().enumerate() {
+            for c in &ev.calls {
+                let Some(fd) = ts.field(&c.parent_ty, &c.field) else { continue };
+                cands.push(((c.path.clone(), c.parent_id), (key.clone(), k), !fd.ty.is_nonnull()));
+            }
+        }
+    }
+    let multi = case.roots.len() > 1;
+    let errs_ok = !multi || o.cross_root_errors;
+    let nf = if cands.is_empty() { 0 } else { [0, 1, 1, 2, 2, 3][r.below(6)] };
+    for _ in 0..nf {
+        let (pos, owner, nullable) = r.pick(&cands).clone();
+        let kind = if nullable {
+            if errs_ok && r.chance(4, 5) { Fault::Err } else { Fault::Null }
+        } else if errs_ok && r.chance(1, 4) {
+            // outside the property's quantifier (non-null position): kept as a minority
+            Fault::Err
+        } else {
+            continue;
+        };
+        let before = case.world.node_faults.insert(pos.clone(), kind);
+        if kind == Fault::Err && !o.nullable_errors {
+            // only errors that reach the root field (none captured at a nullable position below it)
+            let root = case.roots.iter().find(|x| x.key == owner.0).expect("owner root");
+            let ev = execute_event(ts, &case.doc, &case.doc.ops[0], &json!({}), &case.world, &root.key, root.payload(case.world.seed, owner.1));
+            if ev.errors.iter().any(|e| e.nulled.as_ref().map(|n| n.len() >= 2).unwrap_or(false)) {
+                match before {
+                    Some(b) => case.world.node_faults.insert(pos, b),
+                    None => case.world.node_faults.remove(&pos),
+                };
+                continue;
+            }
+        }
+        case.owners.insert(pos, owner);
+    }
+    case
+}
+
+fn faults_json(case: &SubCase) -> J {
+    J::Array(
+        case.world
+            .node_faults
+            .iter()
+            .map(|((p, id), f)| {
+                let o = case.owners.get(&(p.clone(), *id));
+                json!({"path": p, "node": format!("{id:x}"), "fault": f.name(), "event": o.map(|(k, n)| format!("{k}#{n}"))})
+            })
+            .collect(),
+    )
+}
+
+fn case_hash(case: &SubCase) -> u64 {
+    rng::mix(&[
+        rng::hash_str(case.flavour),
+        rng::hash_str(&case.printed.text),
+        case.world.seed,
+        rng::hash_str(&faults_json(case).to_string()),
+    ])
+}
+
+// ---------------------------------------------------------------- schemas
+
+fn pet_value(pv: &PlanVal) -> async_graphql::dynamic::FieldValue<'static> {
+    use async_graphql::dynamic::FieldValue;
+    match pv {
+        PlanVal::Node { ty, id } => FieldValue::owned_any(NodeRef { ty: ty.clone(), id: *id }).with_type(ty.clone()),
+        _ => FieldValue::NULL,
+    }
+}
+
+/// Dynamic schema over the S1 hand model with a `Subscription` type that
+/// behaves like `s1::Subscription` (same gates, same event nodes).
+fn dyn_schema(ts: &TypeSystem) -> Result<async_graphql::dynamic::Schema, String> {
+    use async_graphql::dynamic::*;
+    fn key_of(ctx: &ResolverContext<'_>) -> String {
+        let f = ctx.ctx.field();
+        f.alias().unwrap_or(f.name()).to_string()
+    }
+    let ticks = SubscriptionField::new("ticks", TypeRef::named_nn("Tick"), |ctx| {
+        SubscriptionFieldFuture::new(async move {
+            let env = ctx.data::<Env>()?.clone();
+            let key = key_of(&ctx);
+            let n = ctx.args.get("n").and_then(|v| v.i64().ok()).unwrap_or(3);
+            env.log.push(Ek::Stream, &key, "Subscription", "ticks", Some(Val::Obj(vec![("n".into(), Val::Int(n))])), "subscribed");
+            let root = Root { key: key.clone(), field: "ticks", n, kind: None };
+            let count = root.count();
+            Ok(futures_util::stream::unfold(0usize, move |k| {
+                let env = env.clone();
+                let root = root.clone();
+                async move {
+                    if k >= count {
+                        return None;
+                    }
+                    if let Some(s) = &env.sched {
+                        s.gate(format!("ev:{}:{k}", root.key)).await;
+                    }
+                    env.log.push(Ek::Stream, &root.key, "Subscription", "ticks", None, &format!("event {k}"));
+                    let id = event_id(env.world.seed, &root.key, k);
+                    Some((Ok::<_, async_graphql::Error>(FieldValue::owned_any(NodeRef { ty: "Tick".into(), id })), k + 1))
+                }
+            }))
+        })
+    })
+    .argument(InputValue::new("n", TypeRef::named_nn(TypeRef::INT)).default_value(3));
+    let events = SubscriptionField::new("events", TypeRef::named("Pet"), |ctx| {
+        SubscriptionFieldFuture::new(async move {
+            let env = ctx.data::<Env>()?.clone();
+            let key = key_of(&ctx);
+            let kind: Option<&'static str> = match ctx.args.get("kind").and_then(|v| v.enum_name().ok().map(|s| s.to_string())) {
+                Some(s) if s == "CAT" => Some("CAT"),
+                Some(_) => Some("DOG"),
+                None => None,
+            };
+            env.log.push(Ek::Stream, &key, "Subscription", "events", None, "subscribed");
+            let root = Root { key: key.clone(), field: "events", n: 0, kind };
+            Ok(futures_util::stream::unfold(0usize, move |k| {
+                let env = env.clone();
+                let root = root.clone();
+                async move {
+                    if k >= 3 {
+                        return None;
+                    }
+                    if let Some(s) = &env.sched {
+                        s.gate(format!("ev:{}:{k}", root.key)).await;
+                    }
+                    env.log.push(Ek::Stream, &root.key, "Subscription", "events", None, &format!("event {k}"));
+                    Some((Ok::<_, async_graphql::Error>(pet_value(&root.payload(env.world.seed, k))), k + 1))
+                }
+            }))
+        })
+    })
+    .argument(InputValue::new("kind", TypeRef::named("PetKind")));
+    let sub = Subscription::new("Subscription").field(ticks).field(events);
+    dynb::builder(ts).register(sub).finish().map_err(|e| e.to_string())
+}
+
+// ---------------------------------------------------------------- one scheduled run
+
+struct Rec<'a> {
+    inner: &'a mut dyn Chooser,
+    choices: Vec<usize>,
+}
+impl Chooser for Rec<'_> {
+    fn choose(&mut self, armed: &[Armed]) -> usize {
+        let c = self.inner.choose(armed).min(armed.len() - 1);
+        self.choices.push(c);
+        c
+    }
+}
+
+/// Opens gates in the order of the given labels.
+struct LabelChooser {
+    order: Vec<String>,
+    at: usize,
+}
+impl Chooser for LabelChooser {
+    fn choose(&mut self, armed: &[Armed]) -> usize {
+        let want = self.order.get(self.at).cloned().unwrap_or_default();
+        self.at += 1;
+        armed.iter().position(|a| a.label == want).unwrap_or(0)
+    }
+}
+
+struct Obs {
+    /// responses in the order the stream yielded them, with the event-log length at that moment
+    responses: Vec<(Observed, usize)>,
+    events: Vec<Event>,
+    report: RunReport,
+    choices: Vec<usize>,
+    ended: bool,
+}
+
+const MAX_RESPONSES: usize = 64;
+
+fn run_once(schema: &AnySchema, ts: &Arc<TypeSystem>, case: &SubCase, chooser: &mut dyn Chooser) -> Obs {
+    let sched = Sched::new();
+    let env = Env::new(ts.clone(), case.world.clone()).with_sched(sched.clone());
+    let req = Request::new(case.printed.text.clone()).data(env.clone());
+    let schema = schema.clone();
+    let log = env.log.clone();
+    let mut rec = Rec { inner: chooser, choices: vec![] };
+    let (out, report) = sched.run(
+        async move {
+            let mut st = match &schema {
+                AnySchema::S1(s) => s.execute_stream(req),
+                AnySchema::Dyn(s) => s.execute_stream(req),
+            };
+            let mut out: Vec<(Response, usize)> = vec![];
+            let mut ended = false;
+            while out.len() < MAX_RESPONSES {
+                match st.next().await {
+                    Some(r) => out.push((r, log.len())),
+                    None => {
+                        ended = true;
+                        break;
+                    }
+                }
+            }
+            (out, ended)
+        },
+        &mut rec,
+        false,
+        20_000,
+    );
+    let (resps, ended) = out.unwrap_or((vec![], false));
+    Obs {
+        responses: resps.iter().map(|(r, at)| (observe(r), *at)).collect(),
+        events: env.log.snapshot(),
+        report,
+        choices: rec.choices,
+        ended,
+    }
+}
+
+// ---------------------------------------------------------------- the monitor
+
+#[derive(Default)]
+struct Stats {
+    responses: u64,
+    responses_with_errors: u64,
+    errors_attributed: u64,
+    events: u64,
+    two_roots_in_flight: bool,
+    error_raised_while_other_root_in_flight: bool,
+    distinct_event_data: bool,
+    root_null_as_data_null: u64,
+}
+
+fn parse_boom(msg: &str) -> Option<(String, u64)> {
+    let rest = msg.strip_prefix("boom@")?;
+    let (p, id) = rest.rsplit_once('#')?;
+    Some((p.to_string(), u64::from_str_radix(id, 16).ok()?))
+}
+
+fn first_key(p: &Option<Vec<Seg>>) -> Option<String> {
+    match p.as_ref()?.first()? {
+        Seg::Key(k) => Some(k.clone()),
+        Seg::Idx(_) => None,
+    }
+}
+
+/// Offline check of one recorded run. Returns mismatch descriptions (empty = property held).
+fn check(case: &SubCase, exp: &BTreeMap<String, Vec<RefResult>>, obs: &Obs) -> (Vec<String>, Stats) {
+    let mut diffs = vec![];
+    let mut st = Stats::default();
+    // events the harness streams actually produced: key -> log index of "event k"
+    let mut logged: BTreeMap<String, Vec<usize>> = BTreeMap::new();
+    for (i, e) in obs.events.iter().enumerate() {
+        if e.kind == Ek::Stream && e.extra.starts_with("event ") {
+            logged.entry(e.path.clone()).or_default().push(i);
+        }
+    }
+    let mut next: BTreeMap<String, usize> = BTreeMap::new();
+    // (key, k) -> (log index of the event, log length when its response was yielded)
+    let mut interval: BTreeMap<(String, usize), (usize, usize)> = BTreeMap::new();
+    for (i, (o, at)) in obs.responses.iter().enumerate() {
+        st.responses += 1;
+        if !o.errors.is_empty() {
+            st.responses_with_errors += 1;
+        }
+        // (1) which event does this response belong to?
+        let key = match &o.data {
+            J::Object(m) => {
+                if m.len() != 1 {
+                    diffs.push(format!("response #{i}: data has {} root keys {:?}, expected exactly one", m.len(), m.keys().collect::<Vec<_>>()));
+                }
+                m.keys().next().cloned()
+            }
+            J::Null => {
+                let ks: BTreeSet<String> = o.errors.iter().filter_map(|e| first_key(&e.path)).collect();
+                if o.errors.is_empty() {
+                    diffs.push(format!("response #{i} has neither data nor errors"));
+                }
+                // several roots among the error paths are reported below, per error
+                o.errors.iter().find_map(|e| first_key(&e.path)).or_else(|| ks.into_iter().next())
+            }
+            other => {
+                diffs.push(format!("response #{i}: data is {other}, expected an object"));
+                None
+            }
+        };
+        let Some(key) = key else {
+            diffs.push(format!("response #{i} cannot be attributed to a root field: {}", o.raw));
+            continue;
+        };
+        let Some(evs) = exp.get(&key) else {
+            diffs.push(format!("response #{i}: root key {key:?} is not a root field of the operation"));
+            continue;
+        };
+        let k = *next.get(&key).unwrap_or(&0);
+        next.insert(key.clone(), k + 1);
+        let n_logged = logged.get(&key).map(|v| v.len()).unwrap_or(0);
+        if k >= n_logged || k >= evs.len() {
+            diffs.push(format!("response #{i} is response number {} for root {key}, whose stream produced only {n_logged} event(s) so far (duplicate or invented)", k + 1));
+            continue;
+        }
+        let start = logged[&key][k];
+        if start >= *at {
+            diffs.push(format!("response #{i} ({key}#{k}) was yielded before its event arrived"));
+        }
+        interval.insert((key.clone(), k), (start, *at));
+        let e = &evs[k];
+        st.events += 1;
+        // (1) data = the reference result of that event alone
+        let root_nulled = o.data.is_null() && !o.errors.is_empty() && !e.errors.is_empty() && e.data.get(&key).map(|v| v.is_null()).unwrap_or(false);
+        if root_nulled {
+            // `{key: null}` + error reported as `data: null` + error: where the null lands is C03's subject
+            st.root_null_as_data_null += 1;
+        } else if let Some(d) = json_diff(&o.data, &e.data, "data") {
+            diffs.push(format!("response #{i} ({key}#{k}): data differs from the event's own result (observed vs expected) {d}"));
+        }
+        // (2) errors = exactly the errors of that event
+        let mut used = vec![false; e.errors.len()];
+        for oe in &o.errors {
+            let ps = oe.path.as_ref().map(|p| path_str(p)).unwrap_or_else(|| "<none>".into());
+            let mut foreign = false;
+            if let Some(pos) = parse_boom(&oe.message) {
+                match case.owners.get(&pos) {
+                    Some((ok, on)) if *ok == key && *on == k => st.errors_attributed += 1,
+                    Some((ok, on)) => {
+                        foreign = true;
+                        diffs.push(format!(
+                            "response #{i} ({key}#{k}) carries an error caused while resolving event {ok}#{on}: message={:?} path={ps}",
+                            oe.message
+                        ));
+                    }
+                    None => diffs.push(format!("response #{i} ({key}#{k}): error {:?} names a node no fault was placed on", oe.message)),
+                }
+            }
+            if first_key(&oe.path).as_deref() != Some(key.as_str()) {
+                if !foreign {
+                    diffs.push(format!("response #{i} ({key}#{k}): error path {ps} does not start with the event's root key (message {:?})", oe.message));
+                }
+                continue;
+            }
+            if foreign {
+                continue;
+            }
+            let m = e.errors.iter().enumerate().position(|(j, r)| !used[j] && oe.path.as_deref() == Some(r.path.as_slice()));
+            match m {
+                Some(j) => used[j] = true,
+                None => diffs.push(format!(
+                    "response #{i} ({key}#{k}): error not raised by this event (no failing position at that path, or reported twice): message={:?} path={ps}",
+                    oe.message
+                )),
+            }
+        }
+        for (j, r) in e.errors.iter().enumerate() {
+            if !used[j] && !may_be_missing(r, &e.errors, &used, j) {
+                diffs.push(format!("response #{i} ({key}#{k}): the event's own error at {} ({}) is missing", path_str(&r.path), r.kind));
+            }
+        }
+    }
+    // (3) every event the source produced has exactly one response, in order (the j-th response of a
+    //     root was compared with the j-th event above)
+    for (key, evs) in &logged {
+        let got = *next.get(key).unwrap_or(&0);
+        if obs.ended && got != evs.len() {
+            diffs.push(format!("root {key}: its stream produced {} event(s) but {} response(s) were yielded (lost or duplicated)", evs.len(), got));
+        }
+    }
+    if !obs.ended {
+        diffs.push(format!(
+            "the response stream did not end: {:?} after {} responses, {} gates opened",
+            obs.report.outcome,
+            obs.responses.len(),
+            obs.report.opened.len()
+        ));
+    }
+    // coverage: were events of different roots in flight together?
+    let iv: Vec<(&(String, usize), &(usize, usize))> = interval.iter().collect();
+    for (a, ia) in &iv {
+        for (b, ib) in &iv {
+            if a.0 != b.0 && ia.0 < ib.1 && ib.0 < ia.1 {
+                st.two_roots_in_flight = true;
+            }
+        }
+    }
+    for ((p, id), f) in &case.world.node_faults {
+        if *f != Fault::Err {
+            continue;
+        }
+        let Some(owner) = case.owners.get(&(p.clone(), *id)) else { continue };
+        let Some(&(s, e)) = interval.get(owner) else { continue };
+        let raised = (s..e.min(obs.events.len())).find(|&i| obs.events[i].kind == Ek::Finish && obs.events[i].path == *p);
+        if let Some(t) = raised {
+            if iv.iter().any(|(b, ib)| b.0 != owner.0 && ib.0 < t && t < ib.1) {
+                st.error_raised_while_other_root_in_flight = true;
+            }
+        }
+    }
+    let mut datas = BTreeSet::new();
+    let mut total = 0;
+    for evs in exp.values() {
+        for e in evs {
+            total += 1;
+            datas.insert(e.data.to_string());
+        }
+    }
+    st.distinct_event_data = total > 1 && datas.len() == total;
+    (diffs, st)
+}
+
+fn responses_json(obs: &Obs) -> J {
+    J::Array(obs.responses.iter().map(|(o, _)| o.raw.clone()).collect())
+}
+
+fn expected_json(exp: &BTreeMap<String, Vec<RefResult>>) -> J {
+    let mut m = serde_json::Map::new();
+    for (k, evs) in exp {
+        m.insert(
+            k.clone(),
+            J::Array(
+                evs.iter()
+                    .map(|e| json!({"data": e.data, "errors": e.errors.iter().map(|x| json!({"path": path_str(&x.path), "kind": x.kind})).collect::<Vec<_>>()}))
+                    .collect(),
+            ),
+        );
+    }
+    J::Object(m)
+}
+
+fn replay_json(case: &SubCase, genj: &J, exp: &BTreeMap<String, Vec<RefResult>>, obs: &Obs) -> J {
+    json!({
+        "kind": "subscription",
+        "flavour": case.flavour,
+        "schema": "S1 hand model (harness/schema/src/s1.rs); dynamic flavour: same model through dynb + c27::dyn_schema",
+        "generator": genj,
+        "document": case.printed.text,
+        "variables": {},
+        "world_seed": case.world.seed,
+        "node_faults": faults_json(case),
+        "schedule_choices": obs.choices,
+        "schedule_opened": obs.report.opened,
+        "expected_per_event": expected_json(exp),
+        "observed_responses": responses_json(obs),
+    })
+}
+
+// ---------------------------------------------------------------- drivers
+
+struct Ctx<'a> {
+    run: &'a Run,
+    ts: Arc<TypeSystem>,
+    s1: AnySchema,
+    dy: AnySchema,
+}
+
+impl Ctx<'_> {
+    fn schema(&self, flavour: &str) -> &AnySchema {
+        if flavour == "static" { &self.s1 } else { &self.dy }
+    }
+}
+
+/// Execute one schedule of a case and judge it. Returns false when a violation was reported.
+fn judge(cx: &Ctx<'_>, case: &SubCase, exp: &BTreeMap<String, Vec<RefResult>>, genj: &J, ch: &mut dyn Chooser, seen: &mut BTreeSet<u64>) -> bool {
+    let run = cx.run;
+    let obs = match catch(|| run_once(cx.schema(case.flavour), &cx.ts, case, ch)) {
+        Ok(o) => o,
+        Err(p) => {
+            run.violation(&format!("C27-panic:{:x}", case_hash(case)), &format!("execute_stream panicked: {p} | doc: {}", case.printed.text), json!({"generator": genj, "document": case.printed.text}));
+            return false;
+        }
+    };
+    run.eval();
+    if obs.report.outcome == Outcome::StepLimit {
+        run.inconclusive("step limit reached while driving a subscription stream");
+        return false;
+    }
+    let sh = rng::hash_str(&obs.report.opened.join(","));
+    let fresh = seen.insert(sh);
+    let (diffs, st) = check(case, exp, &obs);
+    if fresh {
+        run.count("schedules_distinct", 1);
+        if obs.report.branch_points > 0 {
+            run.nontrivial(rng::mix(&[case_hash(case), sh]));
+        }
+    }
+    run.seen("max_armed", &obs.report.max_armed.to_string());
+    run.count("responses_checked", st.responses);
+    run.count("responses_with_errors", st.responses_with_errors);
+    run.count("errors_attributed_to_their_event", st.errors_attributed);
+    run.count("events_checked", st.events);
+    if st.root_null_as_data_null > 0 {
+        run.count("responses_root_null_reported_as_data_null", st.root_null_as_data_null);
+    }
+    run.count(&format!("runs_{}", case.flavour), 1);
+    if st.two_roots_in_flight {
+        run.count("runs_two_roots_in_flight", 1);
+    }
+    if st.error_raised_while_other_root_in_flight {
+        run.count("runs_error_raised_while_other_root_in_flight", 1);
+    }
+    if st.two_roots_in_flight && (st.responses_with_errors > 0 || !case.world.node_faults.is_empty()) {
+        run.sample_upto(
+            3,
+            json!({"flavour": case.flavour, "document": case.printed.text, "node_faults": faults_json(case),
+                   "schedule": obs.report.opened, "responses": responses_json(&obs)}),
+        );
+    }
+    if diffs.is_empty() {
+        return true;
+    }
+    run.violation(
+        &format!("C27:{:x}", rng::mix(&[case_hash(case), sh])),
+        &format!(
+            "[{}] {} | doc: {} | faults: {} | schedule: {:?} | responses: {}",
+            case.flavour,
+            diffs.iter().take(4).cloned().collect::<Vec<_>>().join("; "),
+            case.printed.text,
+            faults_json(case),
+            obs.report.opened,
+            responses_json(&obs)
+        ),
+        replay_json(case, genj, exp, &obs),
+    );
+    false
+}
+
+fn gen_opts(run: &Run, flavour: &str, small: bool) -> GenOpts {
+    GenOpts {
+        small,
+        cross_root_errors: if flavour == "static" { run.feature("static_errors_with_concurrent_roots") } else { true },
+        nullable_errors: if flavour == "static" { true } else { run.feature("dynamic_nullable_event_errors") },
+    }
+}
+
+fn one_case(cx: &Ctx<'_>, case_seed: u64, flavour: &'static str, small: bool, cap: usize, randoms: u64) {
+    let run = cx.run;
+    let o = gen_opts(run, flavour, small);
+    let mut r = Rng::new(case_seed);
+    let case = gen_case(&cx.ts, &mut r, flavour, &o);
+    let genj = json!({"case_seed": case_seed, "flavour": flavour, "small": small,
+                     "cross_root_errors": o.cross_root_errors, "nullable_errors": o.nullable_errors});
+    let exp = expected_of(&cx.ts, &case);
+    run.count("cases", 1);
+    run.count(&format!("cases_{flavour}"), 1);
+    run.count(&format!("cases_with_{}_root_fields", case.roots.len()), 1);
+    run.count("faults_injected", case.world.node_faults.len() as u64);
+    if case.world.node_faults.values().any(|f| *f == Fault::Err) {
+        run.count("cases_with_error_faults", 1);
+    }
+    let mut seen = BTreeSet::new();
+    let mut dfs = Dfs::new();
+    let mut n = 0usize;
+    let mut complete = false;
+    loop {
+        if !judge(cx, &case, &exp, &genj, &mut dfs, &mut seen) {
+            return;
+        }
+        n += 1;
+        if n >= cap {
+            break;
+        }
+        if !dfs.advance() {
+            complete = true;
+            break;
+        }
+    }
+    if complete {
+        run.count("cases_fully_enumerated", 1);
+    } else {
+        run.count("cases_capped", 1);
+        if !judge(cx, &case, &exp, &genj, &mut LifoChooser, &mut seen) {
+            return;
+        }
+        for k in 0..randoms {
+            let mut ch = RandomChooser(r.fork(k));
+            if !judge(cx, &case, &exp, &genj, &mut ch, &mut seen) {
+                return;
+            }
+        }
+    }
+    let (_, st) = {
+        let obs = run_once(cx.schema(flavour), &cx.ts, &case, &mut FifoChooser);
+        check(&case, &exp, &obs)
+    };
+    if st.distinct_event_data {
+        run.count("cases_all_events_have_distinct_data", 1);
+    }
+}
+
+// ---------------------------------------------------------------- (4) streamed query / mutation
+
+fn canonical(o: &Observed) -> (J, Vec<String>) {
+    let mut errs: Vec<String> =
+        o.errors.iter().map(|e| format!("{:?}|{:?}|{}", e.path.as_ref().map(|p| path_str(p)), e.locations, e.message)).collect();
+    errs.sort();
+    (o.data.clone(), errs)
+}
+
+fn streamed_nonsub(run: &Run, r: &mut Rng, s1ts: &Arc<TypeSystem>, s1schema: &AnySchema) {
+    let (ts, schema) = if r.chance(1, 2) {
+        (s1ts.clone(), s1schema.clone())
+    } else {
+        let mut to = ts_opts(run);
+        to.max_objects = 3;
+        let ts = Arc::new(gen_type_system(r, &to));
+        match catch(|| dynb::build(&ts)) {
+            Ok(Ok(s)) => (ts, AnySchema::Dyn(s)),
+            _ => return,
+        }
+    };
+    let mut o = doc_opts(run);
+    o.max_depth = 2;
+    o.max_items = 3;
+    o.kind = if ts.mutation.is_some() && r.chance(1, 3) { OpKind::Mutation } else { OpKind::Query };
+    let gd = gen_doc(&ts, r, &o);
+    let world = world_for(schema.flavour(), r.next_u64());
+    let mut case = Case::new(ts.clone(), gd, world, false);
+    let base = case.reference();
+    if base.request_error.is_none() && !base.calls.is_empty() && r.chance(1, 2) {
+        let p = r.pick(&base.calls).path.clone();
+        case.world = case.world.with_faults(&[(p, Fault::Err)]);
+    }
+    let env_a = Env::new(case.ts.clone(), case.world.clone());
+    let env_b = Env::new(case.ts.clone(), case.world.clone());
+    let (req_a, req_b) = (case.request(&env_a), case.request(&env_b));
+    let out = catch(|| {
+        let streamed: Vec<Response> = match &schema {
+            AnySchema::S1(s) => vh_core::vsched::block_on(s.execute_stream(req_a).take(4).collect()),
+            AnySchema::Dyn(s) => vh_core::vsched::block_on(s.execute_stream(req_a).take(4).collect()),
+        };
+        (streamed, schema.execute(req_b))
+    });
+    let (streamed, single) = match out {
+        Ok(x) => x,
+        Err(p) => {
+            run.violation(&format!("C27-nonsub-panic:{:x}", case.hash()), &format!("panicked: {p}"), case.replay_json(schema.flavour()));
+            return;
+        }
+    };
+    run.evals(2);
+    run.count("streamed_query_or_mutation_requests", 1);
+    run.count(if o.kind == OpKind::Mutation { "streamed_mutations" } else { "streamed_queries" }, 1);
+    let want = canonical(&observe(&single));
+    if !want.1.is_empty() {
+        run.count("streamed_nonsub_with_errors", 1);
+    }
+    run.nontrivial(rng::mix(&[case.hash(), 4]));
+    let mut diffs = vec![];
+    if streamed.len() != 1 {
+        diffs.push(format!("execute_stream yielded {} responses for a {:?}, expected exactly one", streamed.len(), o.kind));
+    }
+    if let Some(first) = streamed.first() {
+        let got = canonical(&observe(first));
+        if got != want {
+            diffs.push(format!("streamed response differs from execute(): data {} errors {:?} vs data {} errors {:?}", got.0, got.1, want.0, want.1));
+        }
+    }
+    if !diffs.is_empty() {
+        let mut rj = case.replay_json(schema.flavour());
+        rj["kind"] = json!("streamed-non-subscription");
+        rj["streamed"] = J::Array(streamed.iter().map(|r| observe(r).raw).collect());
+        rj["execute"] = observe(&single).raw;
+        run.violation(
+            &format!("C27-nonsub:{:x}", case.hash()),
+            &format!("[{}] {} | doc: {}", schema.flavour(), diffs.join("; "), case.printed.text),
+            rj,
+        );
+    }
+}
+
+// ---------------------------------------------------------------- pinned witnesses
+
+fn tag_errors(case: &SubCase, o: &Observed) -> Vec<String> {
+    o.errors
+        .iter()
+        .map(|e| {
+            let p = e.path.as_ref().map(|p| path_str(p)).unwrap_or_else(|| "<none>".into());
+            match parse_boom(&e.message).and_then(|pos| case.owners.get(&pos).cloned()) {
+                Some((k, n)) => format!("{p} raised by {k}#{n}"),
+                None => format!("{p} ({})", e.message),
+            }
+        })
+        .collect()
+}
+
+fn witness_case(flavour: &'static str, roots: Vec<(&str, Vec<&str>)>, faults: Vec<(&str, &str)>) -> SubCase {
+    let mut doc = Doc::default();
+    let mut sel = vec![];
+    let mut rs = vec![];
+    for (key, fields) in &roots {
+        let s = fields.iter().map(|f| fsel(&mut doc, None, f, vec![], vec![])).collect();
+        sel.push(fsel(&mut doc, Some(key), "ticks", vec![("n", Val::Int(1))], s));
+        rs.push(Root { key: key.to_string(), field: "ticks", n: 1, kind: None });
+    }
+    doc.ops = vec![Op { kind: OpKind::Subscription, name: None, vars: vec![], dirs: vec![], sel }];
+    let printed = print(&doc, false);
+    let mut world = sub_world(flavour, 7);
+    let mut owners = BTreeMap::new();
+    for (key, f) in faults {
+        let id = event_id(world.seed, key, 0);
+        world.node_faults.insert((format!("{key}.{f}"), id), Fault::Err);
+        owners.insert((format!("{key}.{f}"), id), (key.to_string(), 0));
+    }
+    SubCase { flavour, roots: rs, doc, printed, world, owners }
+}
+
+/// Static: `subscription { x: ticks(n: 1) { n } y: ticks(n: 1) { bad maybe } }`, `y.bad` fails, and
+/// x's event completes while y's is still in flight.
+fn witness_static(cx: &Ctx<'_>) {
+    let run = cx.run;
+    let case = witness_case("static", vec![("x", vec!["n"]), ("y", vec!["bad", "maybe"])], vec![("y", "bad")]);
+    let order = ["ev:x:0", "ev:y:0", "r:y.bad", "r:x.n", "r:y.maybe"];
+    let mut ch = LabelChooser { order: order.iter().map(|s| s.to_string()).collect(), at: 0 };
+    let exp = expected_of(&cx.ts, &case);
+    let obs = run_once(&cx.s1, &cx.ts, &case, &mut ch);
+    run.eval();
+    let (diffs, _) = check(&case, &exp, &obs);
+    let per: Vec<String> = obs
+        .responses
+        .iter()
+        .map(|(o, _)| format!("{{{}}} errors {:?}", o.data.as_object().map(|m| m.keys().cloned().collect::<Vec<_>>().join(",")).unwrap_or("null".into()), tag_errors(&case, o)))
+        .collect();
+    let observed = format!("{} with y.bad failing, gates opened {:?} -> {}", case.printed.text, obs.report.opened, per.join(" ; "));
+    if diffs.is_empty() {
+        run.count("witness_static_shared_error_list_now_clean", 1);
+        run.note(&format!("C27 static witness behaves: {observed}"));
+    } else {
+        run.violation(
+            &format!("C27-static-event-errors-drained-from-shared-list|{observed}"),
+            &format!("pinned witness: {observed} | {}", diffs.join("; ")),
+            replay_json(&case, &json!({"witness": "C27-static"}), &exp, &obs),
+        );
+    }
+}
+
+/// Dynamic: `subscription { y: ticks(n: 1) { bad } }`, `y.bad` fails: the error is captured in the
+/// request-wide list, which the dynamic subscription never reads.
+fn witness_dynamic(cx: &Ctx<'_>) {
+    let run = cx.run;
+    let case = witness_case("dynamic", vec![("y", vec!["bad"])], vec![("y", "bad")]);
+    let exp = expected_of(&cx.ts, &case);
+    let obs = run_once(&cx.dy, &cx.ts, &case, &mut FifoChooser);
+    run.eval();
+    let (diffs, _) = check(&case, &exp, &obs);
+    let per: Vec<String> = obs.responses.iter().map(|(o, _)| format!("data {} errors {:?}", o.data, tag_errors(&case, o))).collect();
+    let observed = format!("{} with y.bad failing -> {}", case.printed.text, per.join(" ; "));
+    if diffs.is_empty() {
+        run.count("witness_dynamic_event_errors_now_clean", 1);
+        run.note(&format!("C27 dynamic witness behaves: {observed}"));
+    } else {
+        run.violation(
+            &format!("C27-dynamic-event-errors-never-delivered|{observed}"),
+            &format!("pinned witness: {observed} | {}", diffs.join("; ")),
+            replay_json(&case, &json!({"witness": "C27-dynamic"}), &exp, &obs),
+        );
+    }
+}
+
+// ---------------------------------------------------------------- replay
+
+fn replay(cx: &Ctx<'_>, path: &std::path::Path) {
+    let run = cx.run;
+    let Ok(text) = std::fs::read_to_string(path) else {
+        run.inconclusive("replay file unreadable");
+        return;
+    };
+    let v: J = serde_json::from_str(&text).unwrap_or(J::Null);
+    let c = &v["case"];
+    let g = &c["generator"];
+    let Some(case_seed) = g["case_seed"].as_u64() else {
+        match g["witness"].as_str() {
+            Some("C27-static") => witness_static(cx),
+            Some("C27-dynamic") => witness_dynamic(cx),
+            _ => println!("NOTE: replay of this case kind is not supported (streamed query/mutation cases carry document, variables, world seed and faults for the C03/C05 replay path)"),
+        }
+        return;
+    };
+    let flavour: &'static str = if g["flavour"] == "dynamic" { "dynamic" } else { "static" };
+    let o = GenOpts {
+        small: g["small"].as_bool().unwrap_or(false),
+        cross_root_errors: g["cross_root_errors"].as_bool().unwrap_or(true),
+        nullable_errors: g["nullable_errors"].as_bool().unwrap_or(true),
+    };
+    let mut r = Rng::new(case_seed);
+    let case = gen_case(&cx.ts, &mut r, flavour, &o);
+    let exp = expected_of(&cx.ts, &case);
+    let choices: Vec<usize> = c["schedule_choices"].as_array().map(|a| a.iter().filter_map(|x| x.as_u64().map(|x| x as usize)).collect()).unwrap_or_default();
+    let mut ch = ReplayChooser { choices, at: 0 };
+    let obs = run_once(cx.schema(flavour), &cx.ts, &case, &mut ch);
+    run.eval();
+    let (diffs, _) = check(&case, &exp, &obs);
+    println!("REPLAY document: {}", case.printed.text);
+    println!("REPLAY faults: {}", faults_json(&case));
+    println!("REPLAY schedule: {:?}", obs.report.opened);
+    println!("REPLAY responses: {}", responses_json(&obs));
+    if diffs.is_empty() {
+        println!("REPLAY result: property held on this case");
+    } else {
+        run.violation(&format!("C27-replay:{:x}", case_hash(&case)), &diffs.join("; "), replay_json(&case, g, &exp, &obs));
+    }
+}
+
+// ---------------------------------------------------------------- main
+
 pub fn main() {
-    println!("INCONCLUSIVE property=C27 reason=check not built yet");
-    std::process::exit(2);
+    let mut run = Run::from_args(
+        "exploration",
+        "subscription operations with 1-3 aliased root fields (ticks / events of the static schema S1 and of a dynamic \
+         schema built from the same model), event objects with 1-4 gated sub-fields, 0-3 single-node faults (resolver \
+         error or null, mostly at nullable positions) whose error message names the (root, event) they belong to; every \
+         event arrival and every sub-field resolver is a vsched gate; all schedules by DFS for small cases (cap 150 quick / \
+         1500 thorough per case, counter cases_fully_enumerated), LIFO + seeded random schedules beyond; each response is \
+         compared with the reference result of its own event alone (data, errors by path and by cause), per root: one \
+         response per produced event, in order. Plus generated queries/mutations through execute_stream: exactly one \
+         response equal to execute(). Non-trivial = distinct (case, schedule) with at least one branch point",
+    );
+    run.assume("reference executor R1 (execute_event) implements spec 6.2.3.2 ExecuteSubscriptionEvent for one root response key");
+    run.assume("an error whose position lies under a position nulled by another reported error of the same event may be absent (spec allows cancelling siblings)");
+    run.assume("whether a root field's stream continues after an event that failed at the root is not asserted (the dynamic flavour ends it)");
+    let s1ts = s1::model();
+    let dy = match catch(|| dyn_schema(&s1ts)) {
+        Ok(Ok(s)) => s,
+        other => {
+            run.set_floors(0, 0);
+            run.inconclusive(&format!("dynamic schema over the S1 model does not build: {:?}", other.map(|r| r.err())));
+            run.finish();
+        }
+    };
+    let (s1s, dys) = (AnySchema::S1(s1::schema()), AnySchema::Dyn(dy));
+    if let Some(p) = run.replay.clone() {
+        let cx = Ctx { run: &run, ts: s1ts.clone(), s1: s1s, dy: dys };
+        replay(&cx, &p);
+        run.finish_code_exit();
+    }
+    run.set_floors(3000, 500);
+    run.require_counter("runs_two_roots_in_flight");
+    run.require_counter("cases_fully_enumerated");
+    run.require_counter("responses_with_errors");
+    run.require_counter("errors_attributed_to_their_event");
+    run.require_counter("streamed_query_or_mutation_requests");
+    run.require_counter("runs_static");
+    run.require_counter("runs_dynamic");
+    if run.feature("static_errors_with_concurrent_roots") {
+        run.require_counter("runs_error_raised_while_other_root_in_flight");
+    }
+    let cases = run.scale(480, 6400);
+    let cap = run.scale(150, 1500) as usize;
+    let randoms = run.scale(30, 120);
+    let nonsub = run.scale(400, 8000);
+    let shards = n_shards(&run);
+    let run = &run;
+    let cx = Ctx { run, ts: s1ts.clone(), s1: s1s, dy: dys };
+    witness_static(&cx);
+    witness_dynamic(&cx);
+    let cx = &cx;
+    std::thread::scope(|sc| {
+        for shard in 0..shards {
+            sc.spawn(move || {
+                let mut i = shard;
+                while i < cases {
+                    let case_seed = rng::mix(&[run.seed, 27, i]);
+                    let flavour = if i % 3 == 2 { "dynamic" } else { "static" };
+                    let small = (i / 3) % 2 == 0;
+                    one_case(cx, case_seed, flavour, small, cap, randoms);
+                    i += shards;
+                }
+                let mut r = shard_rng(run, 27, 1000 + shard);
+                let s1schema = cx.s1.clone();
+                let mut j = shard;
+                while j < nonsub {
+                    streamed_nonsub(run, &mut r, &cx.ts, &s1schema);
+                    j += shards;
+                }
+            });
+        }
+    });
+    run.finish_code_exit();
 }
